@@ -523,7 +523,11 @@ class TorControlProtocol(LineOnlyReceiver):
         values = [strargs[i] for i in range(1, len(strargs), 2)]
 
         def maybe_quote(s):
-            if ' ' in s:
+            # Tor splits SETCONF arguments at whitespace; a value that
+            # starts with '"' is read as a C-style quoted string.
+            if s.startswith('"') or any(c in s for c in ' \t\r\n\v'):
+                s = s.replace('\\', '\\\\').replace('"', '\\"')
+                s = s.replace('\n', '\\n').replace('\r', '\\r').replace('\t', '\\t')
                 return '"%s"' % s
             return s
         values = [maybe_quote(v) for v in values]
